@@ -298,12 +298,16 @@ def toFMod (d : Design) (m : Module) : R FMod := do
       if !(ports.any (fun x => x.1 == p)) then throw s!"{m.name}.{i.name}: no port {p}"
     -- members of an anonymous bundle that the bundle port does not have (an extra connection, through the bundle)
     for (p, cn) in i.conns do
-      match cn with
-      | .anon _ =>
+      match cn, i.kind with
+      | .anon fields, .pair ms =>
+        -- on a `Pair`, the members of an anonymous bundle name the pair's instances
+        for (f, _) in fields do
+          if !(ms.contains f) then throw s!"{m.name}.{i.name}: the pair has no member {f}"
+      | .anon _, _ =>
         for π in anonPaths cn do
           if !(ports.any (fun x => x.1 == p && π.isPrefixOf x.2.1)) then
             throw s!"{m.name}.{i.name}: bundle port {p} has no member {π}"
-      | _ => pure ()
+      | _, _ => pure ()
     let elems : List (String × Option (Nat ⊕ String)) := match i.kind with
       | .single => [(i.name, none)]
       | .array n => (List.range n).map (fun k => (i.name ++ "_" ++ toString k, some (.inl k)))
